@@ -46,7 +46,9 @@ let parse_cval (s : string) : cval = fst (parse_val (tokens s))
 let name_of s = List.init (String.length s) (fun i -> n_of_int (Char.code s.[i]))
 (* expr ::= <val> | N:<y> | S:<y>:<l>:<r> | W:<y> | X:<y>:<key> | R:<y> | P:<y>:<val> | C:<y>:<key>:<val>
           | Q:<y>:<val> (y+val) | T:<y>:<l>:<r>:<val> (y[l:r]+val) | M:<id>:<n>:<val> (func(){n=val;func(){n}}()) | K:<id>:<val> (mk(val), mk=func(mkn){func(){mkn}})
-          | G:<g> (g())                 id: unique per occurrence *)
+          | G:<g> (g()) | B:<id>:<n>:<val> (func(n){[()=>n, writers...]}(val): a bundle of closures over the parameter n)
+          id: unique per occurrence
+   event W:<g>,<inner>: one closure of the bundle g called at top level (after the maker returned) *)
 let parse_expr (s : string) : expr =
   if String.length s > 1 && s.[1] = ':' then
     (match String.split_on_char ':' s with
@@ -61,6 +63,7 @@ let parse_expr (s : string) : expr =
      | ["T"; y; l; r; v] -> EPlus (ESlice (name_of y, z_of_string l, z_of_string r), parse_cval v)
      | ["M"; id; n; v] -> EMkClo (nat_of_int (int_of_string id), name_of n, parse_cval v)
      | ["K"; id; v] -> EMaker (nat_of_int (int_of_string id), parse_cval v)
+     | ["B"; id; n; v] -> EMkParam (nat_of_int (int_of_string id), name_of n, parse_cval v)
      | ["G"; g] -> ECallClo (name_of g)
      | _ -> failwith ("bad expr " ^ s))
   else ELit (parse_cval s)
@@ -81,7 +84,27 @@ let parse_attempt s =
   | ["CA"; n; y; k; v] -> ACallAlias (name_of n, name_of y, parse_key_tok k, parse_cval v)
   | ["RD"; n] -> ARead (name_of n)
   | _ -> failwith ("bad attempt " ^ s)
+(* W:<g>,<inner>   inner ::= RD | AS,<val>,<0|1> | PM,<val> | FI,<a>,<b> | FL,<count>.<val>... | IX,<key>,<val> | DE,<key> | IN,<delta> *)
+let parse_inner fs =
+  match fs with
+  | ["RD"] -> IRead
+  | ["AS"; v; d] -> IAssign (parse_cval v, d = "1")
+  | ["PM"; v] -> IParam (parse_cval v)
+  | ["FI"; a; b] -> ILoopInt (z_of_string a, z_of_string b)
+  | ["FL"; l] ->
+    (match tokens l with
+     | c :: ts -> let rec go k ts acc = if k = 0 then List.rev acc else let (v, ts') = parse_val ts in go (k - 1) ts' (v :: acc) in
+       ILoopList (go (int_of_string c) ts [])
+     | [] -> failwith "FL")
+  | ["IX"; k; v] -> IIdxSet (parse_key_tok k, parse_cval v)
+  | ["DE"; k] -> IDelElem (parse_key_tok k)
+  | ["IN"; d] -> IIncr (z_of_string d)
+  | _ -> failwith "bad inner"
 let parse_event s =
+  if s.[0] = 'W' then
+    (match String.split_on_char ',' (String.sub s 2 (String.length s - 2)) with
+     | g :: fs -> EvClo (name_of g, parse_inner fs)
+     | [] -> failwith "bad W event") else
   let sc = (match s.[0] with 'T' -> STop | 'F' -> SFn | 'G' -> SFn2 | 'L' -> SLoop | _ -> failwith "scope") in
   Ev (sc, parse_attempt (String.sub s 2 (String.length s - 2)))
 
